@@ -100,6 +100,16 @@ def check(run, prog: Program):
     by_func = {}
     for s in sinks:
         by_func.setdefault(id(s.func), []).append(s)
+    # sinks inside nested functions (the wrapper built by signal_transform, local helpers) are obligations of the enclosing function
+    scope_ids = {id(f) for f in an.scope}
+    for s in sinks:
+        if id(s.func) not in scope_ids:
+            outer = next((f for f in an.scope if f.module == s.func.module and s.func.qualname.startswith(f.qualname + ".<locals>")), None)
+            if outer is not None:
+                by_func.setdefault(id(outer), []).append(s)
+            else:
+                run.ob("R1", s.func.where, norm(s.node), f"mutation sink: {s.how}; may alias parameter(s) {sorted(s.roots)}", s.sanctioned is not None,
+                       nontrivial=True, found=None if s.sanctioned else f"write to alias of {sorted(s.roots)}", note=s.sanctioned)
     for f in an.scope:
         ss = by_func.get(id(f), [])
         bad = [s for s in ss if s.sanctioned is None]
